@@ -5,6 +5,6 @@
 #define D(x) do { char p[600]; snprintf(p, sizeof p, "%s/" #x ".bin", argv[1]); FILE* f = fopen(p, "wb"); fwrite(x, 1, sizeof(x), f); fclose(f); } while (0)
 int main(int argc, char** argv) {
   D(PE32_FILE); D(ELF32_FILE); D(ELF64_FILE); D(ELF32_NOSECTIONS); D(ELF32_SHAREDOBJ); D(MACHO_X86_FILE); D(MACHO_PPC_FILE);
-  D(MACHO_X86_OBJECT_FILE); D(MACHO_X86_64_DYLIB_FILE); D(DEX_FILE); D(ISSUE_1006);
+  D(MACHO_X86_OBJECT_FILE); D(MACHO_X86_64_DYLIB_FILE); D(DEX_FILE); D(ISSUE_1006); D(ELF32_MIPS_FILE); D(ELF_x64_FILE);
   return 0;
 }
